@@ -41,8 +41,16 @@ def is_known(v, f):
 
 def replay_finding(ctx, f):
     """replays the finding's recorded history class: does any case of a fixed seed still show one of its kinds?"""
-    cases = l2common.gen_cases(ctx, MODE, 80, 424242)
+    import os
+    from lib import vlib
     kinds = set(f.get("kinds") or [f.get("trigger")])
+    if f.get("script"):   # the exact witness history of the finding (also the Coq refutation theorem's trace)
+        try:
+            c = l2common.run_script(ctx, os.path.join(vlib.VERIF, f["script"]))
+        except RuntimeError:
+            return True
+        return any(v["kind"] in kinds for v in judge([c]))
+    cases = l2common.gen_cases(ctx, MODE, 80, 424242)
     return any(v["kind"] in kinds for v in judge(cases))
 
 
